@@ -9,6 +9,7 @@ CONSTANTS
   Ops = {}
   MaxInFlight = 0
   AuctionImpl = "intended"
+  Resolution = "locked"
   MaxRounds = 0
   ScenLen = 2
   MaxSignFail = 1
